@@ -58,7 +58,11 @@ RULE = ("A: cells with lengths in [0.5, 50] nm and angle triples satisfying 1 - 
         "check_valid_code / volumes_code (vm_compute); 11 argument-shape combinations of box_vectors_to_lengths_and_angles; 4 cells "
         "with all angles below 2 pi degrees (documented warning, conversion still done); 24 orthorhombic descriptions scaled by 1 .. 3e-15 "
         "(identity, random signed axis permutation, zero-diagonal permutation) assigned to unitcell_vectors: kept, lengths exact. Every cell of A also goes through "
-        "lengths_and_angles_to_tilt_factors (float64 scalars of frame 0; float32 per-frame arrays in one call)")
+        "lengths_and_angles_to_tilt_factors (float64 scalars of frame 0; float32 per-frame arrays in one call). Joins that REALLY discard "
+        "an overlapping frame (discard_overlapping_frames=True on pieces overlapping by one coinciding frame; method / operand list / "
+        "md.join; two or three pieces) in the cell stream (12 cells) and the history stream (40 / 400 histories on registers with and "
+        "without cell, after cell assignments). Save/load: every format x {none, triclinic, rectilinear} x {1, 3 frames} x atom counts "
+        "{4, 3, 1} (quick) / {4, 3, 1, 5, 9, 23, 2} (thorough); the option runs rotate through the atom counts")
 TRUSTED = ["harness/impl/cell_impl.py and traj_impl.py (public-API drivers)",
            "harness/props/C17.py: the ast translator of unitcell.py (decides which source expression becomes which Gallina "
            "term; np.cos(alpha) of the degree->radian converted parameter becomes the variable ca, etc.) and the float64 oracle"]
@@ -709,6 +713,20 @@ def structured_cells(rng):
         if nf >= 2:
             k = rng.randint(1, nf - 1)
             add(L, A, rand_rotation(rng), "const-lengths/join", via="join", split=[k, nf - k])
+    # -- joins that really discard an overlapping frame (discard_overlapping_frames=True, coinciding boundary frames): every
+    #    remaining frame keeps its own cell; by the method, by a list of operands, by md.join; two and three segments
+    for i in range(12):
+        nf = rng.choice([3, 4, 5])
+        L = [lens() for _ in range(nf)]
+        A = [tri() if i % 3 else [90.0, 90.0, 90.0] for _ in range(nf)]
+        if i % 2:
+            k = rng.randint(1, nf - 1)
+            split = [k, nf - k]
+        else:
+            k1 = rng.randint(1, nf - 2)
+            k2 = rng.randint(1, nf - k1 - 1)
+            split = [k1, k2, nf - k1 - k2]
+        add(L, A, rand_rotation(rng), "join-discarding-overlap", via="join_overlap", split=split, how=["method", "list", "mdjoin"][i % 3])
     # -- constant angles, lengths differ (incl. all-90 cells and first-frame-cubic runs)
     for i in range(16):
         nf = rng.choice([2, 3, 4])
@@ -923,7 +941,7 @@ def run_cells(ctx, cells, stage="correspond"):
     B = 2500
     for i in range(0, len(cells), B):
         chunk = cells[i:i + B]
-        keys = ("lengths", "angles", "rotated", "via", "split")
+        keys = ("lengths", "angles", "rotated", "via", "split", "how")
         res = ctx.run_impl("cell_impl.py", {"cells": [{k: c[k] for k in keys if k in c} for c in chunk]})["cells"]
         for c, r in zip(chunk, res):
             case = {"cell": {k: c[k] for k in keys if k in c}}
@@ -997,6 +1015,50 @@ def cell_history(rng, length):
                 sh.regs[r] = nr
             else:
                 sh.regs.append(nr)
+    return ops
+
+
+def overlap_history(rng):
+    """a trajectory (with or without cell, possibly after a cell assignment) is cut into two or three pieces that overlap by
+    one frame and joined again with discard_overlapping_frames=True (method, list of operands, md.join): the boundary frames
+    really coincide, one of each pair is discarded; the result has a complete per-frame cell exactly when the source had"""
+    ops = []
+    R = len(CELL_SPECS)
+    r = rng.choice([0, 0, 1, 2])                      # registers 0, 1 carry a cell, 2 does not (3 frames each)
+    pre = rng.random()
+    if pre < 0.25:
+        ops.append(["set_vectors", r, 3, False])
+    elif pre < 0.4:
+        ops.append(["set_angles", r, 3])
+    elif pre < 0.5:
+        ops.append(["read_cell", r, "vectors"])
+    copy = rng.random() < 0.7
+    if rng.random() < 0.6:
+        k = rng.choice([1, 2])
+        ops.append(["slice", r, ["slice", [None, k + 1, None]], copy])
+        ops.append(["slice", r, ["slice", [k, None, None]], copy])
+        regs = [R, R + 1]
+    else:
+        ops.append(["slice", r, ["slice", [None, 2, None]], copy])
+        ops.append(["slice", r, ["slice", [1, 3, None]], copy])
+        ops.append(["slice", r, ["slice", [2, None, None]], copy])
+        regs = [R, R + 1, R + 2]
+    how = rng.random()
+    if how < 0.4:
+        ops.append(["join", regs[0], regs[1:], rng.random() < 0.7, None, True])
+    elif how < 0.7:
+        ops.append(["mdjoin", regs, True])
+    else:
+        cur = regs[0]
+        nxt = R + len(regs)
+        for o in regs[1:]:
+            ops.append(["join", cur, [o], True, None, True])
+            cur = nxt
+            nxt += 1
+    J = R + len([o for o in ops if o[0] in ("slice", "join", "mdjoin")]) - 1
+    ops.append(["read_cell", J, rng.choice(["vectors", "volumes", "lengths"])])
+    if rng.random() < 0.4:
+        ops.append(["join", J, [J], True, None, True])     # its last and first frames differ: nothing is discarded
     return ops
 
 
@@ -1077,6 +1139,8 @@ def build_histories(ctx):
     cases = []
     for i in range(300 if quick else 3000):
         cases.append({"specs": CELL_SPECS, "ops": cell_history(rng, rng.randint(1, 6)), "stream": "random"})
+    for i in range(40 if quick else 400):
+        cases.append({"specs": CELL_SPECS, "ops": overlap_history(rng), "stream": "overlap-join"})
     for L in ([1, 2] if quick else [1, 2, 3, 4]):
         if L == 4:
             for ops in exhaustive_cell_histories(4):
@@ -1390,7 +1454,8 @@ def saveload_check(ctx):
     rc, out = ctx.coq_eval(["MD.Cell.Formats"], "forallb (fun p => match fst p, snd p with Some a, Some b => Bool.eqb a b | None, None => true | _, _ => false end) [%s]" % "; ".join(want))
     if rc != 0 or "= true" not in out:
         ctx.break_("correspondence:format-table-mirror", out[-600:])
-    res = ctx.run_impl("cell_impl.py", {"cells": [], "saveload": [e for e, _k in table]})["saveload"]
+    atom_counts = [4, 3, 1] if ctx.tier == "quick" else [4, 3, 1, 5, 9, 23, 2]
+    res = ctx.run_impl("cell_impl.py", {"cells": [], "saveload": [e for e, _k in table], "atom_counts": atom_counts})["saveload"]
     summary = {}
     for ext, kind in table:
         row = res[ext]
@@ -1403,9 +1468,9 @@ def saveload_check(ctx):
         for key, v in row.items():
             opt = None
             if key.startswith("opt:"):
-                opt, cell, nf = key[4:].split("/")
+                opt, cell, nf, na = key[4:].split("/")
             else:
-                cell, nf = key.split("/")
+                cell, nf, na = key.split("/")
             if "unknown_option" in v:
                 ok = False
                 ctx.fail("save option %s of %s is not in the format table" % (opt, ext), {"saveload": ext, "option": opt}, observed=v,
@@ -1413,7 +1478,7 @@ def saveload_check(ctx):
                          tags={"kind": "saveload-option-unknown", "format": ext, "explained_by": None})
                 continue
             e = expected_roundtrip(kind, cell)
-            case = {"saveload": ext, "cell": cell, "frames": int(nf)}
+            case = {"saveload": ext, "cell": cell, "frames": int(nf), "atoms": int(na[1:])}
             if opt:
                 case["option"] = opt
             ctx.count(case, nontrivial=True, bucket="saveload/" + kind)
